@@ -161,8 +161,10 @@ func c07Struct(args []string) {
 			tag = "|across the NTP era boundary"
 		}
 		t0 := time.Now()
+		fillRX := make([]int64, capN)
 		for i := 0; i < capN; i++ {
 			rxIn := fillBase + int64(i)*3 + rng.Int64N(3)
+			fillRX[i] = rxIn
 			clk.now.Store(rxIn + 100)
 			req := c07Req(rng, ntp.Time64{}, false, i)
 			rxt := time.Unix(0, rxIn).UTC()
@@ -273,9 +275,107 @@ func c07Struct(args []string) {
 			r.Violation("store|state:"+firstWord(err.Error())+"|full store", "end", err.Error())
 		}
 		r.DistinctN(int64(nNew))
+		c07FullConcurrent(r, clk, fillRX, fillBase, nNew, tag)
 		server.VerifReset()
 	}
 	r.FinishLeg()
+}
+
+// c07FullConcurrent runs listeners concurrently on the full store: eight serve newcomers that are more
+// recent than everybody (each evicts the least recently active client), eight report "no kernel transmit
+// timestamp" for the only exchange of clients next in line for eviction (each exchange reported once, as a
+// listener does), so that drops and evictions of the same client meet. Judged at quiescence: the walk of
+// the store under its own lock, the capacity, and no panic.
+func c07FullConcurrent(r *ev.Run, clk *scriptedClock, fillRX []int64, fillBase int64, nNew int, tag string) {
+	capN := len(fillRX)
+	frontier := 0
+	for frontier < capN {
+		if _, _, ok := server.VerifSnapshot(fmt.Sprintf("f%d", frontier)); ok {
+			break
+		}
+		frontier++
+	}
+	if capN-frontier < 200000 {
+		r.Class("at-capacity:concurrent-skipped(too few of the filling clients left)")
+		return
+	}
+	var evicted atomic.Int64
+	evicted.Store(int64(frontier))
+	claimed := make([]atomic.Bool, capN)
+	var panics sync.Map
+	var nDrop, nHandle atomic.Int64
+	perG := r.Pick(6000, 40000)
+	var wg sync.WaitGroup
+	newBase := fillBase + int64(capN)*3 + int64(nNew)*5 + 1000
+	var seq, handlers atomic.Int64
+	handlers.Store(8)
+	for g := 0; g < 8; g++ {
+		wg.Add(2)
+		go func(g int) { // listener serving newcomers
+			defer wg.Done()
+			defer handlers.Add(-1)
+			defer func() {
+				if p := recover(); p != nil {
+					panics.Store(fmt.Sprintf("handle:%v", p), true)
+				}
+			}()
+			rng := rand.New(rand.NewPCG(uint64(g), 7))
+			for k := 0; k < perG; k++ {
+				n := seq.Add(1)
+				rxIn := newBase + n*4
+				clk.now.Store(rxIn + 50)
+				req := c07Req(rng, ntp.Time64{}, false, k)
+				rxt := time.Unix(0, rxIn).UTC()
+				var txt time.Time
+				var resp ntp.Packet
+				server.VerifHandleRequest(fmt.Sprintf("cc%d-%d", g, k), &req, &rxt, &txt, &resp)
+				evicted.Add(1)
+				nHandle.Add(1)
+			}
+		}(g)
+		go func(g int) { // listener that could not read kernel transmit timestamps
+			defer wg.Done()
+			defer func() {
+				if p := recover(); p != nil {
+					panics.Store(fmt.Sprintf("update:%v", p), true)
+				}
+			}()
+			rng := rand.New(rand.NewPCG(uint64(g), 11))
+			for handlers.Load() > 0 {
+				j := int(evicted.Load()) + rng.IntN(48)
+				if j >= capN || claimed[j].Swap(true) {
+					runtime.Gosched()
+					continue
+				}
+				rxt := time.Unix(0, fillRX[j]).UTC()
+				txt0 := time.Unix(0, fillRX[j]+100).UTC()
+				arg := txt0
+				server.VerifUpdateTXTimestamp(fmt.Sprintf("f%d", j), rxt, txt0, &arg)
+				nDrop.Add(1)
+			}
+		}(g)
+	}
+	wg.Wait()
+	r.Eval(nHandle.Load() + nDrop.Load())
+	r.Set("full_store_concurrent_handles", nHandle.Load())
+	r.Set("full_store_concurrent_drops", nDrop.Load())
+	bad := false
+	panics.Range(func(k, _ any) bool {
+		r.Violation("store|panic|concurrent listeners on the full store"+tag, "full-concurrent", map[string]any{"panic": k})
+		bad = true
+		return false
+	})
+	if _, _, err := server.VerifCheckStore(); err != nil {
+		r.Violation("store|state:"+firstWord(err.Error())+"|after concurrent listeners on the full store", "full-concurrent", err.Error())
+		bad = true
+	}
+	if n := server.VerifLen(); n > capN {
+		r.Violation("store|state:more than 2^20 clients kept", "full-concurrent", map[string]any{"count": n})
+		bad = true
+	}
+	if !bad {
+		r.Class("at-capacity:concurrent evictions and drops leave a consistent store" + tag)
+	}
 }
 
 // ---------------------------------------------------------------------------------------
